@@ -961,6 +961,9 @@ class Path:
             return ta + tb
         if isinstance(a, Opaque) or isinstance(b, Opaque):
             return seqs.opaque_binop(op, a, b)
+        if op is ast.Add and isinstance(a, list) and type(b) is seqs.SymSeq and b.kind == 'list':
+            from . import derivedseq
+            return derivedseq.PrefixSeq(list(a), b)
         conc = not is_z3(a) and not is_z3(b)
         if conc and not isinstance(a, SymFloat) and not isinstance(b, SymFloat):
             return self.binop_concrete(op, a, b)
